@@ -2236,11 +2236,14 @@ class Parameters:
                     with _syncing(self_.self, (pname,)):
                         self_.update({pname: new_obj})
             else:
-                with _syncing(self_.self, (pname,)):
-                    try:
-                        self_.update({pname: await awaitable})
-                    except Skip:
-                        pass
+                try:
+                    # Await outside the syncing scope: the name must only be
+                    # marked while the value is being written
+                    new_obj = await awaitable
+                    with _syncing(self_.self, (pname,)):
+                        self_.update({pname: new_obj})
+                except Skip:
+                    pass
         finally:
             # Ensure we clean up but only if the task matches the currrent task
             if self_.self._param__private.async_refs.get(pname) is current_task:
